@@ -2,11 +2,11 @@
 """prints the markdown table of seeded changes for DESIGN.md 9.6 from seeded/*/meta.json"""
 import json, glob, os
 rows = []
-for d in sorted(glob.glob('/verif/seeded/*')):
+for d in sorted(glob.glob('/verif/seeded/*/')):
     m = json.load(open(os.path.join(d, 'meta.json')))
     v = m.get('verified_by_framework_author', {})
     summ = (m.get('summary') or '')[:230].replace('|', '/').replace('\n', ' ')
     needs = (m.get('needs') or '')[:200].replace('|', '/').replace('\n', ' ')
-    rows.append(f"| {os.path.basename(d)} | {summ} | {needs} | {v.get('detected', '?')}: {v.get('violation_kinds', '')} | {v.get('note', '')[:260].replace('|', '/')} |")
+    rows.append(f"| {os.path.basename(d.rstrip('/'))} | {summ} | {needs} | {v.get('detected', '?')}: {v.get('violation_kinds', '')} | {v.get('note', '')[:260].replace('|', '/')} |")
 print('| seed | change | needs | caught by (tier: violation kinds) | history |\n|---|---|---|---|---|')
 print('\n'.join(rows))
